@@ -1045,6 +1045,16 @@ class Machine:
                             tables.add(tuple(bool(f(*m)) for m in uni))
                 mine = tuple(self._concrete_truth(el, m) for m in self.ref0().universe)
                 if mine not in tables:
+                    # ... or of a constraint the solver holds now (what its own simplify() made of the added ones)
+                    try:
+                        for c in h.solver.constraints:
+                            for cc in (c.args if getattr(c, "op", None) == "And" else (c,)):
+                                tables.add(tuple(self._concrete_truth(cc, m) for m in self.ref0().universe))
+                    except _Skip:
+                        raise
+                    except Exception:  # noqa: BLE001
+                        pass
+                if mine not in tables:
                     self.bad("core-element-not-tracked", h, op, element=str(el)[:120], size=len(core))
         # conjunction unsatisfiable: evaluate each element on all assignments through claripy's concrete backend
         if len(core) == 0:
